@@ -250,18 +250,19 @@ def run_archive_batch(names, first=0):
     return events, stored
 
 
-def check_archive_batch(names, first=0):
-    """property on one batch; returns a list of (what, replay, match_keys)"""
+def check_archive_batch(names, first=0, attribute=True):
+    """property on one batch; returns a list of (what, replay, match_keys); attribute=True: when the batch as a
+    whole fails, every name is run again in an archive of its own to find the one responsible"""
     bad = []
     try:
         events, stored = run_archive_batch(names, first)
     except Exception as e:  # noqa
-        if len(names) > 1:
+        if len(names) > 1 and attribute:
             for i, n in enumerate(names):
                 bad += check_archive_batch([n], first + i)
             return bad
-        return [("writestr/writef of %r then close/reopen raised %s: %s" % (names[0], type(e).__name__, e),
-                 {"kind": "archive", "names": [cps(names[0])], "first": first}, {"kind": "archive", "via": "exception"})]
+        return [("writestr/writef of %r then close/reopen raised %s: %s" % (names[:3], type(e).__name__, e),
+                 {"kind": "archive", "names": [cps(n) for n in names], "first": first}, {"kind": "archive", "via": "exception"})]
     expect = []
     for n, ev in zip(names, events):
         inside = spec_ok(n)
@@ -298,7 +299,7 @@ def check_archive_batch(names, first=0):
                 bad.append(("%s(%r) raised %s and changed the archive state" % (ev["api"], n, ev["out"][4:]), rp,
                             {"kind": "archive", "via": "rejected-changed"}))
     if stored != expect:
-        if len(names) > 1:
+        if len(names) > 1 and attribute:
             sub = []
             for i, n in enumerate(names):
                 sub += [b for b in check_archive_batch([n], first + i) if b[2].get("via") == "stored-names"]
@@ -386,10 +387,14 @@ def process_chunk(names, do_archive, model):
                                     {"kind": "sanitize", "name": cps(n)}, {"kind": "sanitize", "via": "absolute-stored"}))
     if do_archive:
         enc = [n for n in names if encodable(n)]
+        splits = 0
         for off in range(0, len(enc), 64):
             blk = enc[off:off + 64]
             res["archive_names"] += len(blk)
-            res["prop"] += check_archive_batch(blk, off // 64)
+            got = check_archive_batch(blk, off // 64, attribute=splits < 2)
+            if any(b[2].get("kind") == "archive" and b[2].get("via") in ("stored-names", "exception") for b in got):
+                splits += 1
+            res["prop"] += got
     # keep the result small: at most a few per class
     for key in ("corr", "prop"):
         seen, kept = {}, []
